@@ -148,8 +148,12 @@ BindKeys(ks, i) == [k \in {ks[j].k : j \in 1..Len(ks)} |->
 \* evt.silent(dur, inevent): a rest that only takes time
 Silent(x32, inev) == Item(Merge(inev, [k \in {"dur"} |-> VR(x32)]), "note", 0, <<>>, FALSE, x32 * N(inev, "stretch", 32) * (U \div 1024))
 SilentU(dU) == Item([k \in {"dur"} |-> VR(0)], "note", 0, <<>>, FALSE, dU)
+\* the rest Ppar inserts when a child has ended: evt.silent(time to the next onset, input event) - its delta is that time
+\* times the input event's stretch
+SilentIn(dU, inev) == Item([k \in {"dur"} |-> VR(0)], "note", 0, <<>>, FALSE, (dU * N(inev, "stretch", 32)) \div 32)
 
-RECURSIVE EvSeq(_, _, _), CatSeq(_, _, _, _), DurCut(_, _, _, _, _, _), ParLoop(_, _, _, _, _, _, _)
+RECURSIVE EvSeq(_, _, _), CatSeq(_, _, _, _), DurCut(_, _, _, _, _, _), ParLoop(_, _, _, _, _, _, _),
+          EvSeqV(_, _, _), CatSeqV(_, _, _, _, _), ParLoopV(_, _, _, _, _, _, _)
 \* items a pattern yields for input event inev; base = first free mono reference
 CatSeq(l, inev, i, base) == IF i > Len(l) THEN <<>> ELSE EvSeq(l[i], inev, base * 10 + i) \o CatSeq(l, inev, i + 1, base)
 \* Pdur(d, p, tolerance): events until the elapsed time, rounded UP to a multiple of the tolerance, reaches d; that
@@ -197,12 +201,38 @@ ParLoop(cs, q, idx, now, stamp, out, fuel) ==
          IF idx[c] > Len(cs[c])
          THEN \* that child has ended: rest until the next one
               (IF rest = <<>> THEN out
-               ELSE ParLoop(cs, rest, idx, rest[1][1], stamp, Append(out, SilentU(rest[1][1] - now)), fuel - 1))
+               ELSE ParLoop(cs, rest, idx, rest[1][1], stamp, Append(out, SilentU(rest[1][1] - now)), fuel - 1))   \* (constant input without stretch)
          ELSE LET it == cs[c][idx[c]] IN
               IF it.ty = "mono_off" THEN ParLoop(cs, q, [idx EXCEPT ![c] = @ + 1], now, stamp, Append(out, it), fuel - 1)
               ELSE LET q2 == QInsert(rest, <<now + DeltaOf(it), stamp, c>>)
                        nt == q2[1][1] IN
                    ParLoop(cs, q2, [idx EXCEPT ![c] = @ + 1], nt, stamp + 1, Append(out, WithDelta(it, nt - now)), fuel - 1)
+
+(* Patterns whose input event changes from step to step (the left operand of a Pchain: every value it yields is
+   built from the event its right operand has just yielded).  ivs = the input events, one per step; the k-th
+   item a pattern yields (rests included) is built from ivs[k]; when ivs is used up the chain ends.
+   Covered: Pbind, Pseq, Pdelta, Pdur and Ppar over Pbinds.                                                  *)
+DropV(s, n) == IF n >= Len(s) THEN <<>> ELSE SubSeq(s, n + 1, Len(s))
+CatSeqV(l, ivs, i, base, acc) ==
+    IF i > Len(l) THEN acc ELSE CatSeqV(l, ivs, i + 1, base, acc \o EvSeqV(l[i], DropV(ivs, Len(acc)), base * 10 + i))
+\* Ppar with per-step input: the child at the head of the queue is pulled with the input event of the current step
+ParLoopV(E, ivs, q, idx, now, stamp, out) ==
+    IF q = <<>> \/ Len(out) >= Len(ivs) THEN out
+    ELSE LET c == q[1][3]  rest == Tail(q)  iv == ivs[Len(out) + 1] IN
+         IF idx[c] > BindLen(E.l[c].ks)
+         THEN (IF rest = <<>> THEN out
+               ELSE ParLoopV(E, ivs, rest, idx, rest[1][1], stamp, Append(out, SilentIn(rest[1][1] - now, iv))))
+         ELSE LET it == Note(Merge(iv, BindKeys(E.l[c].ks, idx[c])))
+                  q2 == QInsert(rest, <<now + DeltaOf(it), stamp, c>>)
+                  nt == q2[1][1] IN
+              ParLoopV(E, ivs, q2, [idx EXCEPT ![c] = @ + 1], nt, stamp + 1, Append(out, WithDelta(it, nt - now)))
+EvSeqV(E, ivs, base) ==
+    CASE E.t = "bind" -> [i \in 1..Min2(BindLen(E.ks), Len(ivs)) |-> Note(Merge(ivs[i], BindKeys(E.ks, i)))]
+      [] E.t = "seq" -> CatSeqV(E.l, ivs, 1, base, <<>>)
+      [] E.t = "delta" -> IF E.x <= 0 THEN EvSeqV(E.p, ivs, base)
+                          ELSE IF ivs = <<>> THEN <<>> ELSE <<Silent(E.x, ivs[1])>> \o EvSeqV(E.p, Tail(ivs), base)
+      [] E.t = "dur" -> DurCut(EvSeqV(E.p, ivs, base), 1, 0, E.x * (U \div 32), E.tl * (U \div 32), <<>>)
+      [] E.t = "par" -> ParLoopV(E, ivs, [i \in 1..Len(E.l) |-> <<0, i, i>>], [i \in 1..Len(E.l) |-> 1], 0, Len(E.l) + 1, <<>>)
 
 EvSeq(E, inev, base) ==
     CASE E.t = "bind" -> [i \in 1..BindLen(E.ks) |-> Note(Merge(inev, BindKeys(E.ks, i)))]
@@ -217,9 +247,10 @@ EvSeq(E, inev, base) ==
            ELSE IF E.ar THEN ArticLoop([i \in 1..n |-> mk(i)], desc, 1, 0, <<>>, 0, base, <<>>)
            ELSE [i \in 1..n |-> IF i = 1 THEN on ELSE Item(mk(i), "mono_set", ref, names, desc.gate, 0 - 1)] \o <<MonoOff(on)>>
       [] E.t = "seq" -> CatSeq(E.l, inev, 1, base)
-      [] E.t = "chain" ->     \* Pchain(l[1], l[2]): l[2] is evaluated first, l[1] (a Pbind) overrides / adds its keys
+      [] E.t = "chain" ->     \* Pchain(l[1], l[2]): at every step l[2] is evaluated first and its event is the input of l[1]
            LET inner == EvSeq(E.l[2], inev, base) n == Min2(Len(inner), BindLen(E.l[1].ks)) IN
-           [i \in 1..n |-> [inner[i] EXCEPT !.e = Merge(@, BindKeys(E.l[1].ks, i))]]
+           IF E.l[1].t = "bind" THEN [i \in 1..n |-> [inner[i] EXCEPT !.e = Merge(@, BindKeys(E.l[1].ks, i))]]   \* overrides / adds its keys
+           ELSE EvSeqV(E.l[1], [i \in 1..Len(inner) |-> inner[i].e], base)
       [] E.t = "delta" -> (IF E.x > 0 THEN <<Silent(E.x, inev)>> ELSE <<>>) \o EvSeq(E.p, inev, base)
       [] E.t = "dur" -> LET cut == DurCut(EvSeq(E.p, inev, base), 1, 0, E.x * (U \div 32), E.tl * (U \div 32), <<>>)
                             open == OpenMonos(cut) IN
